@@ -315,6 +315,20 @@ class AFS:
         self.rename(src, dst)
         return dst
 
+    def clone(self, tag=None):
+        c = AFS.__new__(AFS)
+        c.__dict__.update(self.__dict__)
+        c.files = {p: Node(ABuf(n.content)) for p, n in self.files.items()}
+        c.dirs = set(self.dirs)
+        c.log = []
+        c.reads = []
+        c._perm = dict(self._perm)
+        c.fault = None
+        c.nops = 0
+        if tag is not None:
+            c.tag = tag
+        return c
+
     # ---- state comparison ----------------------------------------------------
     def snapshot(self):
         return ({p: ABuf(n.content) for p, n in self.files.items()}, set(self.dirs))
